@@ -560,3 +560,22 @@ pub fn derivation_chain_log() {
     }
     fx.marked(x + y + z + c - 1, 1);
 }
+
+// ------------------------------------------------------------------------------- C18: zero-sized element types
+// "a copy of zero-sized elements ... succeeds as a no-op; none of these panics"
+macro_rules! zst_harness {
+    ($name:ident, |$s:ident, $buf:ident| $body:expr) => {
+        #[kani::proof]
+        #[kani::unwind(22)]
+        pub fn $name() {
+            let mut fx = FxM::new();
+            let mut $buf = [[0u8; 0]; 2];
+            { let $s = fx.slice(); $body; }
+            fx.untouched();
+        }
+    };
+}
+zst_harness!(zst_slice_copy_to, |s, buf| { let _ = s.copy_to::<[u8; 0]>(&mut buf[..]); });
+zst_harness!(zst_slice_copy_from, |s, buf| s.copy_from::<[u8; 0]>(&buf[..]));
+zst_harness!(zst_array_copy_to, |s, buf| { if let Ok(a) = s.get_array_ref::<[u8; 0]>(0, 2) { let n = a.copy_to(&mut buf[..]); assert!(n == 2, "C18,C04: copying zero-sized elements must report the elements copied"); } });
+zst_harness!(zst_array_copy_from, |s, buf| { if let Ok(a) = s.get_array_ref::<[u8; 0]>(0, 2) { a.copy_from(&buf[..]); } });
